@@ -24,7 +24,7 @@ def jobs(pid, tier):
     if pid == 'C02':
         J.append(Job('lemma_canon', dict(N=5, L=3), need_outcomes=['lemma']))
         if not q:
-            J.append(Job('lemma_canon', dict(N=7, L=2), need_outcomes=['lemma']))
+            J.append(Job('lemma_canon', dict(N=6, L=2), need_outcomes=['lemma']))
         J.append(Job('k1_foa', dict(N=5 if q else 6, L=3, K=1), need_outcomes=FOA))
         J.append(Job('k7_swap', dict(N=4, L=2, x=0, K=2), need_outcomes=['swapped']))
         J.append(Job('k8_gc', dict(N=4, L=2, roots=0, nondet=True), need_outcomes=['collected']))
